@@ -3,12 +3,15 @@ which of several equivalent spellings the source uses.  All are classical compil
 nothing is evaluated:
 
   unroll_static_loops   `for T in <literal tuple/list>` (or a local bound to one just before) -> the body once per element, the
-                        loop targets replaced by the element's expressions
+                        loop targets replaced by the element's expressions;  a table scan `for T in <literal>: if C: S; break`
+                        [`else: E`] -> the if/elif chain over the rows [with `else: E`]
   inline_local_defs     a nested `def h(p): return e` / `h = lambda p: e` (or a nested def with straight-line statements and one
                         trailing return) used in the same function -> its body at the call site
   inline_stmt_calls     a call that is a whole statement (`h(a)`, `x = h(a)`, `x[i] = h(a)`, `x += h(a)`, `return h(a)`) to a helper
                         with straight-line control flow at its top level and at most one trailing return -> the helper's
                         statements with parameters renamed to the arguments and locals made unique
+
+  const_getattr         `getattr(x, "name")` -> `x.name`
 
 A transformation that cannot be applied safely (re-assigned names, break/continue, *args, generators, early returns) leaves the
 code as it is; the rules then see the original spelling."""
@@ -163,6 +166,45 @@ def _unroll_one(loop: ast.For, seq):
     return out
 
 
+def _scan_chain(loop: ast.For, seq):
+    """table scan  `for T in <literal>: if C(T): S(T); break` [`else: E`]  ->  `if C(e1): S(e1) elif C(e2): S(e2) ... [else: E]`
+    (the first matching row wins in both spellings; E runs when no row matched)"""
+    if len(loop.body) != 1 or not isinstance(loop.body[0], ast.If) or loop.body[0].orelse:
+        return None
+    inner = loop.body[0]
+    if not inner.body or not isinstance(inner.body[-1], ast.Break):
+        return None
+    rest = inner.body[:-1]
+    if _top_level_jumps(rest):
+        return None
+    tg = loop.target
+    if isinstance(tg, ast.Name):
+        names = [tg.id]
+    elif isinstance(tg, (ast.Tuple, ast.List)) and all(isinstance(e, ast.Name) for e in tg.elts):
+        names = [e.id for e in tg.elts]
+    else:
+        return None
+    if set(names) & _stored(loop.body):
+        return None
+    # the loop variables must not be read after the loop (they would keep the matching row's values)
+    chain = list(loop.orelse)
+    for e in reversed(seq.elts):
+        if isinstance(tg, ast.Name):
+            m = {tg.id: e}
+        else:
+            if not isinstance(e, (ast.Tuple, ast.List)) or len(e.elts) != len(names) or any(isinstance(x, ast.Starred) for x in e.elts):
+                return None
+            m = dict(zip(names, e.elts))
+        if not all(_pure(v) for v in m.values()):
+            return None
+        test = _Subst(dict(m)).visit(copy.deepcopy(inner.test))
+        body = [_Subst(dict(m)).visit(copy.deepcopy(st)) for st in rest] or [ast.Pass()]
+        node = ast.If(test=test, body=body, orelse=chain)
+        ast.copy_location(node, inner)
+        chain = [node]
+    return chain
+
+
 def _unroll_block(stmts, lits):
     """lits: name -> literal sequence node still valid at this point"""
     out = []
@@ -174,7 +216,11 @@ def _unroll_block(stmts, lits):
                 body_st = _stored(st.body)
                 free = set().union(*[_loaded(e) for e in seq.elts]) if seq.elts else set()
                 if not (free & body_st) and not (isinstance(st.iter, ast.Name) and st.iter.id in body_st):
-                    un = _unroll_one(st, seq)
+                    after = stmts[stmts.index(st) + 1:]
+                    tnames = {n.id for n in ast.walk(st.target) if isinstance(n, ast.Name)}
+                    un = _scan_chain(st, seq) if not (tnames & set().union(*[_loaded(a) for a in after], set())) else None
+                    if un is None:
+                        un = _unroll_one(st, seq)
                     if un is not None:
                         un = _unroll_block(un, lits)
                         for u in un:
@@ -505,11 +551,27 @@ def inline_local_defs(func):
     return func
 
 
+class _ConstGetattr(ast.NodeTransformer):
+    """`getattr(x, "name")` (two arguments, literal identifier) is the attribute access `x.name`"""
+
+    def visit_Call(self, n):
+        self.generic_visit(n)
+        if isinstance(n.func, ast.Name) and n.func.id == "getattr" and len(n.args) == 2 and not n.keywords \
+                and isinstance(n.args[1], ast.Constant) and isinstance(n.args[1].value, str) and n.args[1].value.isidentifier():
+            return ast.copy_location(ast.Attribute(value=n.args[0], attr=n.args[1].value, ctx=ast.Load()), n)
+        return n
+
+
+def const_getattr(node):
+    return ast.fix_missing_locations(_ConstGetattr().visit(node))
+
+
 def normalize_function(func):
     """the local normalisations (no knowledge of other functions needed)"""
     try:
         inline_local_defs(func)
         unroll_static_loops(func)
+        const_getattr(func)          # after unrolling: the name may come from a row of the unrolled table
     except RecursionError:
         pass
     return func
